@@ -558,8 +558,12 @@ type C06Scenario struct {
 	// Cross: two modules of one daemon hold a file of the same relative path,
 	// size and mtime but different content; the other module is listed (with
 	// -c) first, then this one: checksums and data must be this module's.
-	Cross bool      `json:"cross,omitempty"`
-	Tr    Transport `json:"tr"`
+	Cross bool `json:"cross,omitempty"`
+	// SSH: the same daemon reached through its anonymous SSH listener: exec
+	// requests that try to make it serve paths outside every module (the
+	// machinery of C20, judged here as disclosure).
+	SSH *C20Scenario `json:"ssh,omitempty"`
+	Tr  Transport    `json:"tr"`
 }
 
 type c06 struct{}
@@ -578,6 +582,28 @@ var c06Paths = []string{
 
 func (c06) Generate(seed uint64, tier string, index int) any {
 	g := NewGen(kernel.Derive(seed, "workload"), tier == "thorough")
+	if index%40 == 39 {
+		ssh := &C20Scenario{Mode: "anon", Keys: []C20Key{{Type: c20KeyTypes[g.R.Intn(len(c20KeyTypes))]}}}
+		var senders []string
+		for _, c := range append(append([]string{}, c20Cmds...), c20AmbiguousCmds...) {
+			if strings.Contains(c, "--sender") || strings.Contains(c, "secret") {
+				senders = append(senders, c)
+			}
+		}
+		for i := 0; i < 4; i++ {
+			c := senders[g.R.Intn(len(senders))]
+			op := "exec"
+			for _, a := range c20AmbiguousCmds {
+				if a == c {
+					op = "exec-lenient"
+				}
+			}
+			ssh.Sessions = append(ssh.Sessions, C20Session{Op: op, Cmd: c})
+		}
+		ssh.Sessions = append(ssh.Sessions, C20Session{Op: "daemon", Cmd: c20DaemonCmds[0]})
+		ssh.Tr = Transport{CapCS: kernel.Unbounded, CapSC: kernel.Unbounded, Chunk: g.R.Intn(4), Bias: g.R.Intn(2), SchedSeed: g.R.Uint64() >> 1}
+		return &C06Scenario{Module: "ssh", SSH: ssh, Tr: ssh.Tr}
+	}
 	sc := &C06Scenario{FSModule: g.R.Intn(3) == 0}
 	sc.Module = []string{"mod", "mod", "mod", "modx", "mo"}[g.R.Intn(5)]
 	if sc.FSModule {
@@ -619,6 +645,23 @@ func (c06) Generate(seed uint64, tier string, index int) any {
 
 func (c06) Run(t *testing.T, scenario any, job *Job, res *Result) {
 	sc := scenario.(*C06Scenario)
+	if sc.SSH != nil {
+		if sc.SSH.Mode != "anon" {
+			res.Invalid = "ssh scenario"
+			return
+		}
+		os.Setenv("GOKRAZY_RSYNC_PRIVDROP", "1")
+		c20{}.Run(t, sc.SSH, job, res)
+		os.Unsetenv("GOKRAZY_RSYNC_PRIVDROP")
+		if res.Violation != nil {
+			res.Violation.Signature = "ssh:" + res.Violation.Kind + ":" + res.Violation.Signature
+			res.Violation.Kind = "disclosure"
+		}
+		res.Probe("ssh_listener_runs", 1)
+		res.NonTrivial = true
+		res.Sample = map[string]any{"mode": "ssh", "sessions": len(sc.SSH.Sessions)}
+		return
+	}
 	cr, err := newCanaryRing(job.Scratch, "mod")
 	if err != nil {
 		res.Inconclusive = err.Error()
